@@ -55,6 +55,9 @@ OPS = [None, "0", "0.5"]
 DISPLAYS = [None, "none", "inline"]
 
 
+CAPS = [None, "round", "square"]
+
+
 def attr_string(combo, carrier, rule, extra=""):
     fill, stroke, sw, op, fo, so, disp = combo
     props = {}
@@ -125,8 +128,10 @@ def evaluate(case):
         tpl = GEO[geo][0]
         for carrier in case["carriers"]:
             for rule in ("nonzero", "evenodd"):
-                for combo in itertools.product(FILLS, STROKES, WIDTHS, OPS, case["fos"], case["sos"], case["disps"]):
-                    a = attr_string(combo, carrier, rule)
+                # zero-length geometry: the line cap decides whether a visible stroke inks a dot
+                caps = CAPS if (GEO[geo][3] is False and GEO[geo][4]) else [None]
+                for combo, cap in itertools.product(itertools.product(FILLS, STROKES, WIDTHS, OPS, case["fos"], case["sos"], case["disps"]), caps):
+                    a = attr_string(combo, carrier, rule, extra=(f' stroke-linecap="{cap}"' if cap else ""))
                     doc = f'<svg {NS} viewBox="0 0 30 30">{tpl.format(a=a)}</svg>'
                     n += 1
                     try:
@@ -136,7 +141,7 @@ def evaluate(case):
                     except Exception as e:  # noqa
                         outs["raised:" + type(e).__name__] += 1
                         continue
-                    ref = reference_paints(geo, combo, rule)
+                    ref = reference_paints(geo, combo, rule, cap or "butt")
                     outs[f"{o}/ref={ref}"] += 1
                     if ref is True or mp is False:
                         nts.add(core.h64(doc))
